@@ -264,3 +264,18 @@ Example C11_lfp_val_negated_atom_cycle :
           [true; false; false; false],
           [true; false; false; false]).
 Proof. vm_compute. reflexivity. Qed.
+
+(* a negation-free cyclic history (m = or() mutable; c = and(m, a); add_disjunct(m, c); add_disjunct(m, b);
+   d = or(m, c)): hypothesis of C11_lfp_val_equal_partial satisfiable, lfp_val of all returned keys equal *)
+Definition ex3_ops :=
+  [OAtom 0 None; OAtom 1 None; OOr [] true true None None; OAnd [Some 3; Some 1] None None;
+   ODisjunct (Some 3) (Some 4); ODisjunct (Some 3) (Some 2); OOr [Some 3; Some 4] true false None None].
+Example C11_example_positive_cycle :
+  match run ex_opts ex_pcl init ex3_ops with
+  | Ok r => forallb (fun nd => forallb (fun c => match c with Some z => 0 <=? z | None => true end) (children nd)) (rg r) = true /\
+            map (fun a => map (lfp_val a (nodes (impl r))) (rmap r)) ex_assigns
+            = map (fun a => map (fun i => lfp_val a (rg r) (Some (Z.of_nat i))) (seq 1 (length (rg r)))) ex_assigns /\
+            map (fun a => lfp_val a (rg r) (Some 3)) ex_assigns = [false; true; false; true]
+  | _ => False
+  end.
+Proof. vm_compute. repeat split; reflexivity. Qed.
